@@ -87,3 +87,125 @@ Proof.
   intros H. pose proof H as (_ & Hc & _). unfold peek. rewrite <- Hc.
   destruct (cur r1); [intros _; split; [reflexivity|exact H]|apply next_det; exact H].
 Qed.
+
+(* ----- two runs side by side: first evaluate the run on r1 (collecting, for every reader
+   operation, how far it advanced and its determinacy fact), then replay the run on r2 ----- *)
+Ltac with_goal k :=
+  lazymatch goal with
+  | |- det2 ?n ?t1 ?t2 => k n t1 t2
+  | |- agree ?n ?t1 ?t2 => k n t1 t2
+  end.
+
+Ltac d_hide := with_goal ltac:(fun n t1 t2 => let T := fresh "T2" in remember t2 as T).
+Ltac d_unhide :=
+  match goal with
+  | E : ?T = _ |- det2 _ _ ?T => subst T
+  | E : ?T = _ |- agree _ _ ?T => subst T
+  end.
+
+Ltac d_pair t adv dfact :=
+  let H1 := fresh "A" in let H2 := fresh "D" in
+  pose proof adv as H1; pose proof dfact as H2; destruct t as [? ?]; fr_norm.
+
+Ltac d_op :=
+  with_goal ltac:(fun n t1 t2 =>
+    match t1 with
+    | context [next ?x] => is_var x; d_pair (next x) (next_advances x) (fun r2 => next_det n x r2)
+    | context [peek ?x] => is_var x; d_pair (peek x) (peek_advances x) (fun r2 => peek_det n x r2)
+    end).
+
+Ltac d_case :=
+  with_goal ltac:(fun n t1 t2 =>
+    let x := hs t1 in (tryif is_var x then destruct x else destruct x eqn:?); fr_norm).
+
+Ltac d_rew :=
+  repeat match goal with
+  | E : ?t = _ |- _ => tryif is_var t then fail else (lazymatch goal with |- context [t] => rewrite E end)
+  end.
+
+Ltac d_budget :=
+  match goal with
+  | B : (consumed ?rX <= ?n)%nat |- (consumed ?x <= ?n)%nat =>
+      apply (consumed_le x rX n); [ad_done | exact B]
+  end.
+
+Ltac d_op2 :=
+  match goal with
+  | A : agree ?n ?x ?y, D : forall r2 : reader, agree ?n ?x r2 -> @?Q r2 |- _ =>
+      is_var y;
+      let D' := fresh "D" in pose proof (D y A) as D'; cbv beta in D';
+      lazymatch type of D' with
+      | (consumed ?x' <= _)%nat -> det2 _ _ ?u =>
+          lazymatch goal with |- context [u] => idtac end;
+          let Hb := fresh in assert (Hb : (consumed x' <= n)%nat) by d_budget;
+          specialize (D' Hb); clear Hb; clear D;
+          let o2 := fresh "o" in let y2 := fresh "y" in
+          destruct u as [o2 y2]; unfold det2 in D'; cbn [fst snd] in D';
+          let E := fresh in let A2 := fresh "A" in destruct D' as [E A2]; subst o2
+      | (consumed ?x' <= _)%nat -> agree _ _ ?u =>
+          lazymatch goal with |- context [u] => idtac end;
+          let Hb := fresh in assert (Hb : (consumed x' <= n)%nat) by d_budget;
+          specialize (D' Hb); clear Hb; clear D;
+          let y2 := fresh "y" in set (y2 := u) in *; clearbody y2
+      end
+  end.
+
+Ltac d_fin := first [ assumption | split; [reflexivity | assumption] ].
+
+Ltac d_auto extra :=
+  d_hide; repeat first [d_op | extra | d_case];
+  d_unhide; fr_norm; d_rew; fr_norm;
+  repeat (d_op2; fr_norm; d_rew; fr_norm);
+  d_fin.
+
+Lemma read_word_det n w : forall r1 r2, agree n r1 r2 ->
+  (consumed (snd (read_word w r1)) <= n)%nat -> det2 n (read_word w r1) (read_word w r2).
+Proof.
+  induction w as [|e w IH]; intros r1 r2 A B; cbn [read_word] in *.
+  - d_auto fail.
+  - d_auto ltac:(match goal with |- context [read_word w ?x] =>
+                   is_var x; d_pair (read_word w x) (read_word_advances w x) (IH x) end).
+Qed.
+
+Ltac d_set x adv dfact :=
+  let H1 := fresh "A" in let H2 := fresh "D" in
+  pose proof adv as H1; pose proof dfact as H2;
+  let r' := fresh "r" in set (r' := x) in *; clearbody r'; fr_norm.
+
+Lemma eat_ws_det n fuel : forall r1 r2, agree n r1 r2 ->
+  (consumed (eat_ws fuel r1) <= n)%nat -> agree n (eat_ws fuel r1) (eat_ws fuel r2).
+Proof.
+  induction fuel as [|f IH]; intros r1 r2 A B; cbn [eat_ws] in *; [exact A|].
+  d_auto ltac:(match goal with |- context [eat_ws f ?x] =>
+                 is_var x; d_set (eat_ws f x) (eat_ws_advances f x) (IH x) end).
+Qed.
+
+Lemma read_digits_f_det n fuel : forall acc r1 r2, agree n r1 r2 ->
+  (consumed (snd (read_digits_f fuel acc r1)) <= n)%nat ->
+  det2 n (read_digits_f fuel acc r1) (read_digits_f fuel acc r2).
+Proof.
+  induction fuel as [|f IH]; intros acc r1 r2 A B; cbn [read_digits_f] in *; [split; [reflexivity|exact A]|].
+  d_auto ltac:(match goal with |- context [read_digits_f f ?a ?x] =>
+                 is_var x; d_pair (read_digits_f f a x) (read_digits_f_advances f a x) (IH a x) end).
+Qed.
+
+Lemma read_hex4_det n k : forall acc r1 r2, agree n r1 r2 ->
+  (consumed (snd (read_hex4 k acc r1)) <= n)%nat ->
+  det2 n (read_hex4 k acc r1) (read_hex4 k acc r2).
+Proof.
+  induction k as [|k IH]; intros acc r1 r2 A B; cbn [read_hex4] in *; [split; [reflexivity|exact A]|].
+  d_auto ltac:(match goal with |- context [read_hex4 k ?a ?x] =>
+                 is_var x; d_pair (read_hex4 k a x) (read_hex4_advances k a x) (IH a x) end).
+Qed.
+
+Lemma read_string_f_det n fuel : forall acc r1 r2, agree n r1 r2 ->
+  (consumed (snd (read_string_f fuel acc r1)) <= n)%nat ->
+  det2 n (read_string_f fuel acc r1) (read_string_f fuel acc r2).
+Proof.
+  induction fuel as [|f IH]; intros acc r1 r2 A B; cbn [read_string_f] in *; [split; [reflexivity|exact A]|].
+  d_auto ltac:(first
+    [ match goal with |- context [read_hex4 ?k ?a ?x] =>
+        is_var x; d_pair (read_hex4 k a x) (read_hex4_advances k a x) (fun r2 => read_hex4_det n k a x r2) end
+    | match goal with |- context [read_string_f f ?a ?x] =>
+        is_var x; d_pair (read_string_f f a x) (read_string_f_advances f a x) (IH a x) end ]).
+Qed.
